@@ -333,8 +333,21 @@ def decide(pid, pc, tier, seed, work, t0, finder_driver):
     if undecided and not new_viol:
         for u in undecided:
             print('UNDECIDED property=%s reason=%s' % (pid, u))
+        # the contracts could not be attached / decided (e.g. the function was restructured): fall back to
+        # replaying sampled inputs of the property's domain on the real code; only a concrete failing input
+        # that replays counts as a violation - otherwise the answer stays "undecided" (exit 2, no alarm)
+        hit = finder_driver.find(pid, seed, 30 if tier == 'quick' else 180, REPO, None)
         ev = evidence(pid, pc, tier, seed, t0, mine, discharged, functions, results, smt_ms, verified, failures, undecided, known_hit, [], funcs_time, sha)
         ev['coverage']['undecided'] = undecided
+        ev['coverage']['fallback_finder'] = {k: hit.get(k) for k in ('evaluations', 'found', 'error', 'note')} if hit else None
+        if hit and hit.get('found'):
+            rp = os.path.join(VERIF, 'replay', pid, 'undecided_fallback.json')
+            json.dump(dict(property=pid, obligation='contracts undecided (%s); violation established by replay on the real code' % undecided[0][:200],
+                           counterexample=hit, replay_cmd='./check %s --replay %s' % (pid, rp), tree_sha=sha), open(rp, 'w'), indent=1)
+            print('VIOLATION property=%s replay=%s obligation=undecided-contracts-replayed-counterexample' % (pid, rp))
+            ev['violations'] = 1
+            write_evidence(pid, ev)
+            return 1
         write_evidence(pid, ev)
         return 2
     finder_info = None
